@@ -57,6 +57,12 @@ M = [
     ("Model/Stream.v", "  | (Ok _, r0) => let (x, r1) := run_real w (open_prog fam) r0 in (x, clear_cache r1)", "  | (Ok _, r0) => let (x, r1) := run_real w (open_prog fam) r0 in (x, r1)", ["C07", "C08"]),
     ("Model/SymVer.v", "Definition link_fuel (d : buf) : nat := S (S (N.to_nat (blen d))).", "Definition link_fuel (d : buf) : nat := S (N.to_nat (blen d)).", ["C13", "C16"]),
     ("Model/Table.v", "Definition iter_fuel (d : buf) : nat := S (N.to_nat (blen d)).", "Definition iter_fuel (d : buf) : nat := N.to_nat (blen d).", ["C09", "C16"]),
+    # ---- batch 3: the hand-written reading of p_flags_to_string (Spec/AbiTables.v)
+    ("Spec/AbiTables.v", "  if Z.ltb v 8 then flag_letter tab", "  if Z.leb v 8 then flag_letter tab", ["C19"]),
+    ("Spec/AbiTables.v", 'flag_letter tab "PF_W" "W" v ++ flag_letter tab "PF_X" "E" v', 'flag_letter tab "PF_X" "W" v ++ flag_letter tab "PF_W" "E" v', ["C19"]),
+    ("Spec/AbiTables.v", '  | Some m => if Z.eqb (Z.land v m) 0 then " " else letter', '  | Some m => if Z.eqb (Z.land v m) m then letter else " "', ["C19"]),      # equivalent for single-bit masks: survives, rightly
+    ("Spec/AbiTables.v", '  | None => "?"', '  | None => " "', ["C19"]),      # unreachable while the crate exports PF_R/PF_W/PF_X: survives, rightly
+    ("Spec/AbiTables.v", '  else "p_flags(" ++ hex0xl (Z.to_N v) ++ ")".', '  else "p_flags(" ++ hex0xl (Z.to_N (v - 1)) ++ ")".', ["C19"]),
 ]
 
 
